@@ -32,7 +32,7 @@ namespace {
 constexpr uint64_t kLive = 0x11ce5ca11ab1e000ULL, kDead = 0xdeadca11ab1edeadULL;
 
 struct Cover {
-    uint64_t reusedThreadObjects = 0, maxStartsOfOneObject = 0;
+    uint64_t reusedThreadObjects = 0, maxStartsOfOneObject = 0, burstCases = 0, veryLateStarts = 0;
     uint64_t bodyDoneBeforeStartReturned = 0, creationFailuresInjected = 0, detached = 0;
     uint64_t starts = 0, lateStarts = 0, polledFinishes = 0, runnables = 0, canaryChecks = 0, argChecks = 0, copiesMade = 0, nontrivialCases = 0;
     std::map<std::string, uint64_t> kinds;
@@ -171,7 +171,11 @@ void runCase(uint64_t c, rt::Rng rng) {
     bool poll = rng.chance(600);
     bool clobber = !rng.chance(150);
     unsigned startDelay = rng.chance(750) ? (unsigned) rng.below(5000) : 0;
-    bool delayCreator = startDelay && rng.chance(350);   // hold up the starter instead: the new thread runs ahead of it
+    // "no matter how late that thread is scheduled": one case per job may be told to hold the new thread up for seconds
+    // (a hand-over that gives up after a bounded wait only shows beyond its bound)
+    bool veryLate = rt::optInt("lateus", 0) > 0 && c == rt::st().from;
+    if (veryLate) { startDelay = (unsigned) rt::optInt("lateus", 0); ++C.veryLateStarts; clobber = true; }
+    bool delayCreator = startDelay && rng.chance(350) && !(rt::optInt("lateus", 0) > 0 && c == rt::st().from);   // hold up the starter instead: the new thread runs ahead of it
     static const char *kn[] = {"function-pointer", "small-closure", "large-functor(256B)", "copyable-functor", "Runnable"};
     char d[200];
     snprintf(d, sizeof d, "kind=%s args=%d via=%s %s<=%uus dwell=%uus poll=%d", kn[kind], kind == 4 ? 0 : nargs, viaCtor ? "constructor" : "start()", delayCreator ? "creatorDelay" : "startDelay", startDelay, sh.dwellUs, (int) poll);
@@ -187,7 +191,7 @@ void runCase(uint64_t c, rt::Rng rng) {
 #endif
     // fault injection (3% of the cases): the thread cannot be created. start() must then report failure by
     // throwing (std::thread does), not return as if a thread had run.
-    bool failCreate = HAVE_SPY && rng.chance(30);
+    bool failCreate = HAVE_SPY && rng.chance(30) && !veryLate;
     // rarely used path (4%): the owner detaches through std_thread() and still calls join()
     bool detach = !failCreate && !viaCtor && rng.chance(40);
     int starterTid = (int) syscall(SYS_gettid);
@@ -381,6 +385,50 @@ void runReuseCase(uint64_t c, rt::Rng rng) {
 #endif
 }
 
+
+// Several Thread objects started back to back with callables of the SAME type but different state (one lambda expression
+// with different captures, function pointers of one signature): each runs its own callable exactly once.
+std::atomic<int> gBurstFnHits[8];
+void burstFn0() { gBurstFnHits[0].fetch_add(1); }
+void burstFn1() { gBurstFnHits[1].fetch_add(1); }
+void burstFn2() { gBurstFnHits[2].fetch_add(1); }
+void burstFn3() { gBurstFnHits[3].fetch_add(1); }
+void runBurstCase(uint64_t c, rt::Rng rng) {
+    int n = (int) rng.range(2, 4);
+    bool fnPtr = rng.chance(400);
+    char d[160];
+    snprintf(d, sizeof d, "%d Thread objects started back to back with %s", n, fnPtr ? "function pointers of one signature" : "one lambda expression and different captures");
+    gDesc = d;
+    rt::crumb("%s", d);
+#if HAVE_SPY
+    spy::Delays dl;
+    dl.threadStart = 700; dl.threadStartMaxUs = (unsigned) rng.range(100, 3000);
+    spy::configure(dl, rt::mix(rt::st().seed, c));
+#endif
+    std::atomic<int> hits[4];
+    for (auto &h : hits) h.store(0);
+    for (auto &h : gBurstFnHits) h.store(0);
+    void (*fns[4])() = {burstFn0, burstFn1, burstFn2, burstFn3};
+    {
+        Thread t[4];
+        for (int i = 0; i < n; ++i) {
+            if (fnPtr) t[i].start(fns[i]);
+            else { std::atomic<int> *mine = &hits[i]; int tag = i; t[i].start([mine, tag]() { mine->fetch_add(1 + 100 * tag - 100 * tag); }); }
+            ++C.starts;
+        }
+        for (int i = 0; i < n; ++i) t[i].join();
+    }
+    for (int i = 0; i < n; ++i) {
+        int got = fnPtr ? gBurstFnHits[i].load() : hits[i].load();
+        if (got != 1) { fail("invocation-count", "burst", std::string(d) + ": callable #" + std::to_string(i) + " ran " + std::to_string(got) + " time(s)"); break; }
+    }
+    ++C.burstCases;
+#if HAVE_SPY
+    spy::disableDelays();
+    spy::recycle();
+#endif
+}
+
 void onDeadlock(const std::string &desc) {
     rt::violation("C20", "quiescent-deadlock", "join", gDesc + ": every thread is blocked and nothing can wake it: " + desc);
 }
@@ -397,13 +445,14 @@ int main(int argc, char **argv) {
         rt::setCase(c);
         rt::Rng pick(rt::mix(rt::st().seed, c ^ 0x5eed));
         if (pick.chance((unsigned) rt::optInt("reuse", 15))) { runReuseCase(c, rt::Rng(rt::mix(rt::st().seed, c))); continue; }
+        if (pick.chance((unsigned) rt::optInt("burst", 40))) { runBurstCase(c, rt::Rng(rt::mix(rt::st().seed, c))); continue; }
         runCase(c, rt::Rng(rt::mix(rt::st().seed, c)));
     }
 #if HAVE_SPY
     spy::stopMonitor();
 #endif
     rt::dumpFingerprints(C.fps);
-    rt::finish(rt::Json().kv("engine", "h_thread").kv("starts", C.starts).kv("lateStarts", C.lateStarts).kv("bodyDoneBeforeStartReturned", C.bodyDoneBeforeStartReturned).kv("threadCreationFailuresInjected", C.creationFailuresInjected).kv("detachedThenJoined", C.detached).kv("polledFinishes", C.polledFinishes).kv("reusedThreadObjects", C.reusedThreadObjects).kv("maxStartsOfOneObject", C.maxStartsOfOneObject)
+    rt::finish(rt::Json().kv("engine", "h_thread").kv("starts", C.starts).kv("lateStarts", C.lateStarts).kv("bodyDoneBeforeStartReturned", C.bodyDoneBeforeStartReturned).kv("threadCreationFailuresInjected", C.creationFailuresInjected).kv("detachedThenJoined", C.detached).kv("polledFinishes", C.polledFinishes).kv("burstsOfSameTypeCallables", C.burstCases).kv("startsDelayedBySeconds", C.veryLateStarts).kv("reusedThreadObjects", C.reusedThreadObjects).kv("maxStartsOfOneObject", C.maxStartsOfOneObject)
                    .kv("runnables", C.runnables).kv("canaryChecks", C.canaryChecks).kv("argumentIdentityChecks", C.argChecks)
                    .kv("callableCopiesObserved", C.copiesMade).kv("nontrivialCases", C.nontrivialCases)
                    .raw("kinds", rt::jsonCounts(C.kinds)).raw("samples", rt::jsonArray(C.samples, false)));
